@@ -1,6 +1,8 @@
 // Standalone reproductions of the defects found by the C10 monitor.
 // Drop into /repo/embedded/tbtree/ (package tbtree_test) and run
-//   go test -vet=off -count=1 -run 'TestC10' ./embedded/tbtree/
+//
+//	go test -vet=off -count=1 -run 'TestC10' ./embedded/tbtree/
+//
 // Each test FAILS on the unchanged tree and passes with /verif/proposed/C10-*.patch applied.
 package tbtree_test
 
@@ -25,14 +27,14 @@ func TestC10GetBetweenReadsHistoryOfAnotherKey(t *testing.T) {
 			t.Fatal(err)
 		}
 	}
-	ins("J", "j1") // ts 1
-	ins("J", "j2") // ts 2
+	ins("J", "j1")                             // ts 1
+	ins("J", "j2")                             // ts 2
 	if _, _, err := tree.Flush(); err != nil { // J's older version goes to offset 0 of the history log
 		t.Fatal(err)
 	}
-	ins("K", "k3") // ts 3
-	ins("K", "k4") // ts 4
-	ins("K", "k5") // ts 5
+	ins("K", "k3")                             // ts 3
+	ins("K", "k4")                             // ts 4
+	ins("K", "k5")                             // ts 5
 	if _, _, err := tree.Flush(); err != nil { // one chunk with two versions of K: hCount(K) = 2
 		t.Fatal(err)
 	}
@@ -123,3 +125,53 @@ func TestC10CleanupDiscardsNodesOfOpenSnapshotReader(t *testing.T) {
 		}
 	}
 }
+
+// A BulkInsert refused while inserting (same key twice, second time with an
+// older timestamp) must leave the tree as it was. (a) it drops the accepted,
+// not yet flushed insert of "b"; (b) after a restart it replaces the whole tree
+// by an empty leaf (lastSnapRoot is nil after Open). (b) passes with
+// C10-refused-insert-after-reopen-empties-tree.patch; (a) stays an open finding
+// (TestMultiTimedBulkInsertion asserts the loss).
+func testC10RefusedBulk(t *testing.T, reopen bool) {
+	dir := t.TempDir()
+	opts := tbtree.DefaultOptions().WithFlushThld(1000)
+	tree, err := tbtree.Open(dir, opts)
+	if err != nil {
+		t.Fatal(err)
+	}
+	defer func() { tree.Close() }()
+	if err := tree.Insert([]byte("a"), []byte("v1")); err != nil {
+		t.Fatal(err)
+	}
+	if _, _, err := tree.Flush(); err != nil {
+		t.Fatal(err)
+	}
+	if reopen {
+		if err := tree.Close(); err != nil {
+			t.Fatal(err)
+		}
+		if tree, err = tbtree.Open(dir, opts); err != nil {
+			t.Fatal(err)
+		}
+	}
+	if err := tree.Insert([]byte("b"), []byte("v2")); err != nil { // accepted, not flushed
+		t.Fatal(err)
+	}
+	ts := tree.Ts()
+	err = tree.BulkInsert([]*tbtree.KVT{{K: []byte("c"), V: []byte("x"), T: ts + 5}, {K: []byte("c"), V: []byte("y"), T: ts + 4}})
+	if err == nil {
+		t.Fatal("the bulk must be refused")
+	}
+	if _, _, _, err := tree.Get([]byte("a")); err != nil {
+		t.Errorf("(b) Get(a) after the refused bulk: %v (flushed before the restart)", err)
+	}
+	if _, _, _, err := tree.Get([]byte("b")); err != nil {
+		t.Errorf("(a) Get(b) after the refused bulk: %v (its insertion was accepted)", err)
+	}
+	if tree.Ts() != ts {
+		t.Errorf("Ts() = %d after the refused bulk, was %d", tree.Ts(), ts)
+	}
+}
+
+func TestC10RefusedBulkInsertLosesAcceptedInserts(t *testing.T)   { testC10RefusedBulk(t, false) }
+func TestC10RefusedBulkInsertAfterReopenEmptiesTree(t *testing.T) { testC10RefusedBulk(t, true) }
